@@ -1,10 +1,161 @@
 import PewDriver.Util
+import PewModel.Agilent
 open Lean
 namespace PewDriver.C02
-open PewDriver
+open PewDriver Pew.Agilent
+abbrev Nm := Pew.Agilent.Name
 
-def handle (op : String) (_req : Json) : R Json := do
+def getName (j : Json) (k : String) : R Nm := do pure (← getStr j k).toList
+def asName (j : Json) : R Nm := do pure (← asStr j).toList
+def jName (n : Nm) : Json := jStr (String.ofList n)
+
+def getOptField {α} (f : Json → R α) (j : Json) (k : String) : R (Option α) := fld j k >>= asOpt f
+
+def parseMethod (j : Json) : R Method := do
+  match ← asStr j with
+  | "batch_xml" => pure .batchXml
+  | "batch_csv" => pure .batchCsv
+  | "acq_method_xml" => pure .acqMethod
+  | "alphabetical" => pure .alphabetical
+  | s => throw s!"bad method {s}"
+
+def parseEntry (j : Json) : R Entry := do
+  pure { name := ← getName j "name", isDir := ← getBool j "dir" }
+
+def parseLog (j : Json) : R LogEntry := do
+  pure { result := ← getName j "result", file := ← getOptField asName j "file" }
+
+def parseRow (j : Json) : R CsvRow := do
+  pure { id := ← getNat j "id", file := ← getName j "file", result := ← getName j "result" }
+
+def parseSample (j : Json) : R Sample := do
+  pure { id := ← getOptField asInt j "id", file := ← getOptField asName j "file" }
+
+def parseElement (j : Json) : R AcqElement := do
+  pure { name := ← getName j "name", mz := ← getInt j "mz", selected := ← getInt j "selected" }
+
+def parseXMass (j : Json) : R XMass := do
+  pure { name := ← getName j "name", mass := ← getInt j "mass", acctime := ← getRat j "acctime" }
+
+def parseXAdd (j : Json) : R XAdd := do
+  pure { index := ← getNat j "index", precursor := ← getInt j "precursor", product := ← getInt j "product" }
+
+def parseScan (j : Json) : R ScanRec := do
+  pure { off := ← getNat j "off", bc := ← getNat j "bc", time := ← getRat j "time" }
+
+def parseCsvFile (j : Json) : R CsvFile := do
+  pure { pre := ← getList asName j "pre", header := ← getList asName j "header",
+         rows := ← getList (asList asName) j "rows", foot := ← getList asName j "foot", eol := ← getName j "eol" }
+
+def parseFile {α} (val : Json → R α) (key : String) (j : Json) : R (DataFile α) := do
+  pure { name := ← getName j "name", hasBinary := ← getBool j "binary", scans := ← getList parseScan j "scans",
+         profile := ← getList (asList val) j key, csv := ← getOptField parseCsvFile j "csv" }
+
+def jErr : Err → Json
+  | .value => jObj [("raises", jStr "ValueError")]
+  | .notFound => jObj [("raises", jStr "FileNotFoundError")]
+  | .key => jObj [("raises", jStr "KeyError")]
+  | .other => jObj [("raises", jStr "other")]
+
+def jTimes (t : List (List Rat)) : Json := jList (jList jRat) t
+
+def jImage {β} (enc : β → Json) (st : List (List Rat) → Json) : Except Err (Image β) → Json
+  | .error e => jErr e
+  | .ok im => jObj [("names", jList jName im.names), ("img", jList (jList (jList enc)) im.img),
+                    ("times", jTimes im.times), ("scantime", st im.times)]
+
+def stModel (t : List (List Rat)) : Json :=
+  if ((t.map diffs).flatten).isEmpty then Json.null else jRat (meanDiff t)
+
+def stSpec (t : List (List Rat)) : Json :=
+  let m := (t.head?.map (·.length)).getD 0
+  if t.isEmpty || m < 2 then Json.null else jRat (meanDiffSpec t m)
+
+def jOptNames : Option (List Nm) → Json
+  | none => jObj [("raises", jStr "ValueError")]
+  | some l => jList jName l
+
+def mapImage {β γ} (f : β → γ) (im : Image β) : Image γ :=
+  { names := im.names, img := im.img.map (·.map (·.map f)), times := im.times }
+
+def handle (op : String) (req : Json) : R Json := do
   match op with
+  | "c02.import" =>
+    let listing ← getList parseEntry req "listing"
+    let xml ← getOptField (asList parseLog) req "xml"
+    let csv ← getOptField (asList parseRow) req "csv"
+    let acqj ← fld req "acq"
+    let (samples, acqNames) ← match acqj with
+      | .null => pure ((none : Option (List Sample)), (none : Option (List Nm)))
+      | j => do
+        let s ← getList parseSample j "samples"
+        let es ← getList parseElement j "elements"
+        let msms ← getBool j "msms"
+        pure (some s, some (acqElements msms es))
+    let m : Meta := { listing := listing, xml := xml, csv := csv, acq := samples }
+    let xs ← getList parseXMass req "xspecific"
+    let xadd ← getOptField (fun j => do
+      pure ((← getBool j "msms"), (← getList parseXAdd j "rows"))) req "xadd"
+    let methods ← getList parseMethod req "methods"
+    let useAcq ← getBool req "use_acq"
+    let cpsOn ← getBool req "cps"
+    let filesT ← getList (parseFile asInt "vals") req "files"
+    -- collection: every single method and the given list
+    let singles : List (String × List Method) :=
+      [("batch_xml", [.batchXml]), ("batch_csv", [.batchCsv]), ("acq_method_xml", [.acqMethod]),
+       ("alphabetical", [.alphabetical]), ("methods", methods)]
+    let coll (spc : Bool) := jObj (singles.map (fun (n, ms) => (n, jOptNames (collect m spc ms))))
+    -- mass table
+    let mi := massInfo xs xadd
+    let miSpec := massInfoSpec xs xadd
+    let jMass (l : List MassInfo) := jList (fun (x : MassInfo) =>
+      jObj [("id", jNat x.id), ("str", jName x.str), ("acctime", jRat x.acctime)]) l
+    -- binary, bit tokens
+    let binM := loadBinary m filesT mi methods
+    let binS := loadBinarySpec m filesT miSpec methods
+    -- binary, rationals, counts per second
+    let rv ← getBool req "rational"
+    if cpsOn && !rv then throw "cps needs rational values"
+    let filesR ← if rv then getList (parseFile asRat "rvals") req "files" else pure []
+    let cpsM := (loadBinary m filesR mi methods).map (fun im => if cpsOn then cps (mi.getD []) im else im)
+    let cpsS := (loadBinarySpec m filesR miSpec methods).map (fun im => if cpsOn then cps miSpec im else im)
+    -- csv
+    let acqN := if useAcq then acqNames else none
+    let csvM := loadCsv m filesT acqN methods
+    let specNames := if useAcq && acqNames.isSome then some (miSpec.map (·.str)) else none
+    let csvS := loadCsvSpec m filesT specNames methods
+    -- load: binary (counts per second when requested), else csv
+    let binJM : Except Err (Image Json) := if cpsOn then cpsM.map (mapImage jRat) else binM.map (mapImage jInt)
+    let binJS : Except Err (Image Json) := if cpsOn then cpsS.map (mapImage jRat) else binS.map (mapImage jInt)
+    let loadM := load binJM (csvM.map (mapImage jRat))
+    let loadS := load binJS (csvS.map (mapImage jRat))
+    -- binary-vs-CSV agreement (counts per second, to the printed precision)
+    let decimals ← getNat req "decimals"
+    let tol : Rat := 1 / (2 * (10 ^ decimals : Nat) : Rat)
+    let agreeOf (spc : Bool) (bin : Except Err (Image Rat)) (tbl : List MassInfo) (csvI : Except Err (Image Rat)) : Json :=
+      match linesOf m spc methods, bin, csvI with
+      | .ok lines, .ok b, .ok c =>
+        if rv then
+          let present := lines.map (fun n => ((findFile filesT n).bind (·.csv)).isSome)
+          jBool (agree tol present (cps tbl b) c)
+        else Json.null
+      | _, _, _ => Json.null
+    let agM := agreeOf false (loadBinary m filesR mi methods) (mi.getD []) csvM
+    let agS := agreeOf true (loadBinarySpec m filesR miSpec methods) miSpec csvS
+    -- method file vs log
+    let acqEq : Json := match xml, samples with
+      | some l, some s => jBool (acqLogHyp l (sortByInt sampleKey s))
+      | _, _ => Json.null
+    let jNull (b : Bool) (j : Json) : Json := if b then j else Json.null
+    pure (jObj [
+      ("collect", jObj [("model", coll false), ("spec", coll true)]),
+      ("masses", jObj [("model", (mi.map jMass).getD (jErr .key)), ("spec", jMass miSpec)]),
+      ("binary", jObj [("model", jImage jInt stModel binM), ("spec", jImage jInt stSpec binS)]),
+      ("cps", jObj [("model", jNull rv (jImage jRat stModel cpsM)), ("spec", jNull rv (jImage jRat stSpec cpsS))]),
+      ("csv", jObj [("model", jImage jRat stModel csvM), ("spec", jImage jRat stSpec csvS)]),
+      ("load", jObj [("model", jImage id stModel loadM), ("spec", jImage id stSpec loadS)]),
+      ("agree", jObj [("model", agM), ("spec", agS)]),
+      ("acq_eq_log", acqEq)])
   | _ => throw s!"unknown op {op}"
 
 end PewDriver.C02
